@@ -22,6 +22,7 @@ use vh::*;
 static LAST_PANIC: Mutex<Option<(String, String)>> = Mutex::new(None); // (location file, message)
 static CASE_START_MS: AtomicU64 = AtomicU64::new(0);
 static CURRENT_INPUT: Mutex<String> = Mutex::new(String::new());
+static HANG_KEY: Mutex<String> = Mutex::new(String::new());
 
 fn now_ms() -> u64 {
     use std::time::{SystemTime, UNIX_EPOCH};
@@ -38,16 +39,25 @@ fn install_hooks() {
         } else {
             "?".to_string()
         };
-        *LAST_PANIC.lock().unwrap() = Some((loc, msg));
+        // innermost fea_rs function on the stack: names the failing site
+        let bt = std::backtrace::Backtrace::force_capture().to_string();
+        let site = bt
+            .lines()
+            .filter_map(|l| l.trim().split_once(": ").map(|x| x.1.to_string()))
+            .find(|f| f.starts_with("fea_rs::") || f.starts_with("<fea_rs::"))
+            .unwrap_or_default();
+        let site = site.split("::").filter(|p| !p.starts_with('h') || p.len() != 17).collect::<Vec<_>>().join("::");
+        *LAST_PANIC.lock().unwrap() = Some((format!("{loc} in {site}"), msg));
     }));
     std::thread::spawn(|| loop {
         std::thread::sleep(std::time::Duration::from_millis(500));
         let st = CASE_START_MS.load(Ordering::SeqCst);
-        if st != 0 && now_ms().saturating_sub(st) > 20_000 {
+        if st != 0 && now_ms().saturating_sub(st) > 8_000 {
             let input = CURRENT_INPUT.lock().map(|s| s.clone()).unwrap_or_default();
+            let key = HANG_KEY.lock().map(|s| s.clone()).unwrap_or_default();
             emit_violation(
-                "front-end-hang",
-                "the feature-file front end did not return within 20 s".to_string(),
+                if key.is_empty() { "front-end-hang" } else { &key },
+                format!("the feature-file front end did not return within 8 s (it normally takes milliseconds); input {}", trunc(&input, 300)),
                 json!({"input": input}),
             );
             std::process::exit(0);
@@ -76,11 +86,26 @@ fn slug(s: &str) -> String {
 }
 
 fn panic_key(prefix: &str, loc: &str, msg: &str) -> String {
-    let file = Path::new(loc).file_stem().map(|s| s.to_string_lossy().to_string()).unwrap_or_default();
-    if loc.ends_with("grammar/metrics.rs") && msg.contains("out of bounds") {
-        return format!("{prefix}-panic-glyphs-number-value-split");
+    let (file, site) = loc.split_once(" in ").unwrap_or((loc, ""));
+    let stem = Path::new(file).file_stem().map(|s| s.to_string_lossy().to_string()).unwrap_or_default();
+    let site: String = site
+        .trim_start_matches('<')
+        .replace("fea_rs::", "")
+        .chars()
+        .map(|c| if c.is_ascii_alphanumeric() || c == '_' { c } else { '.' })
+        .collect::<String>()
+        .split('.')
+        .filter(|p| !p.is_empty())
+        .collect::<Vec<_>>()
+        .join(".");
+    if site.is_empty() {
+        return format!("{prefix}-panic-{}-{}", stem, slug(msg));
     }
-    format!("{prefix}-panic-{}-{}", file, slug(msg))
+    if prefix == "validate" && site.starts_with("token_tree.typed.") && msg.contains("Option::unwrap()") {
+        // one class: a typed-AST accessor assumes a child that the (error-free) tree does not have
+        return "validate-panic-typed-accessor-unwrap-none".to_string();
+    }
+    format!("{prefix}-panic-in-{}", site)
 }
 
 // ---------------------------------------------------------------------------
@@ -151,6 +176,7 @@ fn metric(rng: &mut Rng) -> String {
         1 => format!("${{pad {} {}}}", pick_s(rng, &["+", "-", "*", "/"]), num(rng)),
         2 => format!("${{pad-{}}}", pick_s(rng, &["2", "x", "1.5", "12.5", "1.", "a-b", "/2", "é"])),
         3 => format!("${{{}-{}}}", rng.range(1, 30), rng.range(1, 30)),
+        6 => format!("${{pad {}b-c}}", pick_s(rng, &["", " ", "#é\n", "# c\n "])),
         4 => "(wght=100:10 wght=900:20)".into(),
         5 => format!("(wght={}:{} wdth=5u:{})", num(rng), num(rng), num(rng)),
         _ => num(rng),
@@ -511,7 +537,7 @@ fn check_text(kind: &str, text: &str, rng: &mut Rng, st: &mut PStats) {
         let gmo = if use_map { Some(&gm) } else { None };
         *st.by_kind.entry(format!("{kind}{}", if use_map { "+glyphmap" } else { "" })).or_default() += 1;
         st.parses += 1;
-        match run_parse(&files, "root.fea", gmo, true) {
+        match run_parse(&files, "root.fea", gmo, use_map) {
             Err((loc, msg)) => {
                 emit_violation(
                     &panic_key("parse", &loc, &msg),
@@ -525,7 +551,9 @@ fn check_text(kind: &str, text: &str, rng: &mut Rng, st: &mut PStats) {
                 }
                 if !p.has_errors {
                     st.error_free += 1;
-                    st.validated += 1;
+                    if use_map {
+                        st.validated += 1;
+                    }
                 }
                 // lossless (when nothing was spliced in)
                 let spliced = has_include && p.concat != text && (p.concat.contains("sub a by b;\n") || p.concat.contains("@INC = [a b];\n"));
@@ -1302,6 +1330,187 @@ fn include_case(id: &mut usize, g: &IncGraph, kind: &str, stats: &mut BTreeMap<S
     }
 }
 
+/// One share of stream P (run in a child process).  chunk 0 also runs the fixed inputs.
+fn worker_parse(seed: u64, chunk: usize, nchunks: usize, n_parse: usize, skip_hang: u64, probe: Option<usize>) {
+    install_hooks();
+    let mut pst = PStats { parses: 0, error_free: 0, validated: 0, with_diags: 0, by_kind: BTreeMap::new() };
+    let mut rng = Rng::new(seed.wrapping_mul(1000).wrapping_add(chunk as u64 + 1));
+    let mut skipped = 0usize;
+    if let Some(k) = probe {
+        *HANG_KEY.lock().unwrap() = HANG_KEYS[k].to_string();
+        check_text("hang-probe", HANG_PROBES[k], &mut rng, &mut pst);
+    } else {
+        let corpus = load_corpus();
+        if chunk == 0 {
+            for t in FIXED {
+                check_text("fixed", t, &mut rng, &mut pst);
+            }
+        }
+        for (k, (_, text)) in corpus.iter().enumerate() {
+            if k % nchunks == chunk {
+                check_text("corpus", text, &mut rng, &mut pst);
+            }
+        }
+        let corpus: Vec<(String, String)> = corpus;
+        let share = n_parse / nchunks + usize::from(chunk < n_parse % nchunks);
+        for i in 0..share {
+            let (kind, text) = match i % 4 {
+                0 => {
+                    let (_, base) = rng.pick(&corpus);
+                    let w = window(&mut rng, base, 1500);
+                    ("corpus-mutated", mutate(&mut rng, &w, 4))
+                }
+                1 => ("grammar", gen_fea(&mut rng)),
+                2 => {
+                    let t = gen_fea(&mut rng);
+                    ("grammar-mutated", mutate(&mut rng, &t, 3))
+                }
+                _ => ("soup", gen_soup(&mut rng)),
+            };
+            if (skip_hang & 1 != 0 && may_hit_class_hyphen_loop(&text)) || (skip_hang & 2 != 0 && may_hit_anchordef_metric_loop(&text)) {
+                skipped += 1;
+                continue;
+            }
+            check_text(kind, &text, &mut rng, &mut pst);
+        }
+    }
+    emit(json!({"type": "pstat", "parses": pst.parses, "error_free": pst.error_free, "validated": pst.validated,
+                "with_diags": pst.with_diags, "by_kind": pst.by_kind, "skipped_known_hang_pattern": skipped}));
+}
+
+/// Run stream P in child processes (16 shares in parallel), forward their records in a fixed order.
+fn orchestrate_parse_stream(seed: u64, n_parse: usize) -> serde_json::Value {
+    let exe = std::env::current_exe().expect("current_exe");
+    let run_child = |extra: Vec<String>| -> String {
+        let out = std::process::Command::new(&exe).args(&extra).stdin(std::process::Stdio::null()).stderr(std::process::Stdio::null()).output();
+        match out {
+            Ok(o) => String::from_utf8_lossy(&o.stdout).to_string(),
+            Err(e) => json!({"type":"violation","key":"harness-worker-failed","desc":format!("worker {:?} failed: {e}", extra),"found_input":false}).to_string(),
+        }
+    };
+    // the inputs known not to terminate, each alone
+    let mut hang_seen = 0u64;
+    let mut outputs: Vec<String> = Vec::new();
+    for k in 0..HANG_PROBES.len() {
+        let o = run_child(vec!["--worker-parse".into(), "--seed".into(), seed.to_string(), "--probe".into(), k.to_string()]);
+        if o.contains(HANG_KEYS[k]) {
+            hang_seen |= 1 << k;
+        }
+        outputs.push(o);
+    }
+    let nchunks = 16usize;
+    let handles: Vec<_> = (0..nchunks)
+        .map(|c| {
+            let exe = exe.clone();
+            let args: Vec<String> = vec![
+                "--worker-parse".into(), "--seed".into(), seed.to_string(), "--chunk".into(), c.to_string(), "--nchunks".into(), nchunks.to_string(),
+                "--parse".into(), n_parse.to_string(), "--skip-hang".into(), hang_seen.to_string(),
+            ];
+            std::thread::spawn(move || {
+                let out = std::process::Command::new(&exe).args(&args).stdin(std::process::Stdio::null()).stderr(std::process::Stdio::null()).output();
+                out.map(|o| String::from_utf8_lossy(&o.stdout).to_string()).unwrap_or_default()
+            })
+        })
+        .collect();
+    for h in handles {
+        outputs.push(h.join().unwrap_or_default());
+    }
+    let mut total: BTreeMap<String, u64> = BTreeMap::new();
+    let mut by_kind: BTreeMap<String, u64> = BTreeMap::new();
+    let mut workers_reporting = 0;
+    for o in &outputs {
+        for line in o.lines() {
+            if !line.starts_with('{') {
+                continue;
+            }
+            match serde_json::from_str::<serde_json::Value>(line) {
+                Ok(v) if v["type"] == "pstat" => {
+                    workers_reporting += 1;
+                    for k in ["parses", "error_free", "validated", "with_diags", "skipped_known_hang_pattern"] {
+                        *total.entry(k.to_string()).or_default() += v[k].as_u64().unwrap_or(0);
+                    }
+                    if let Some(m) = v["by_kind"].as_object() {
+                        for (k, n) in m {
+                            *by_kind.entry(k.clone()).or_default() += n.as_u64().unwrap_or(0);
+                        }
+                    }
+                }
+                Ok(_) => println!("{line}"),
+                Err(_) => {}
+            }
+        }
+    }
+    json!({"totals": total, "by_kind": by_kind, "workers_reporting": workers_reporting, "workers": nchunks + HANG_PROBES.len(), "hang_pattern_skipped": hang_seen})
+}
+
+/// Fixed regression inputs (always run first).
+const FIXED: &[&str] = &[
+    "",
+    "\0",
+    "languagesystem DFLT dflt;\0feature liga { sub a by b; } liga;",
+    "feature liga { sub a by b }",
+    "include(a)",
+    "@a = [b]é;",
+    "feature liga { sub a--b by c; } liga;",
+    "feature liga { sub [a---b] by c; } liga;",
+    "feature kern { pos a ${x-12.5}; } kern;",
+    "feature kern { pos a ${x-1.}; } kern;",
+    "feature liga { sub a' from [b c]; sub a b' c' lookup L1 by d; } liga;",
+    "feature liga { sub a-z from [a u]; } liga;",
+    "table hhea { LineGap 32768; } hhea;",
+    "table BASE { HorizAxis.BaseScriptList latn toolong1 -120 0; } BASE;",
+    "feature kern { pos a ${a #é\n b-c}; } kern;",
+    "feature kern { pos a ${pad -2}; } kern;",
+    "\"unterminated",
+    "0x",
+    "include(",
+    "include()",
+    "anon x { ",
+    "table",
+    "feature liga {",
+    "é",
+    "#",
+    "\\",
+];
+/// Inputs on which the unchanged parser does not terminate (run last, each in its own process).
+const HANG_PROBES: &[&str] = &["@a = [b]-c;", "anchorDef (toolong=1:1) A;"];
+const HANG_KEYS: &[&str] = &["parser-hang-glyph-class-non-name-before-hyphen", "parser-hang-anchordef-variable-metric-bad-axis-tag"];
+
+/// Over-approximation of the trigger of the known non-termination in the variable-metric loop
+/// of `eat_metric` when the recovery set contains identifiers (anchorDef).
+fn may_hit_anchordef_metric_loop(text: &str) -> bool {
+    text.contains("anchorDef") && text.contains('(')
+}
+
+/// Over-approximation of the trigger of the known non-termination in
+/// `glyph_class_list_member` (a token that is not a glyph name, followed by a hyphen token):
+/// a '-' that does not start a number and is preceded by something other than a name character.
+fn may_hit_class_hyphen_loop(text: &str) -> bool {
+    let b = text.as_bytes();
+    for i in 0..b.len() {
+        if b[i] != b'-' {
+            continue;
+        }
+        let next = b.get(i + 1).copied().unwrap_or(0);
+        let starts_number = next.is_ascii_digit() && !(next == b'0' && matches!(b.get(i + 2), Some(c) if c.is_ascii_digit() || *c == b'x' || *c == b'X'));
+        if starts_number {
+            continue;
+        }
+        let mut j = i;
+        while j > 0 && (b[j - 1] == b' ' || (0x9..=0xd).contains(&b[j - 1])) {
+            j -= 1;
+        }
+        let prev = if j == 0 { b' ' } else { b[j - 1] };
+        if j == i && prev == b'-' {
+            continue; // inside a name such as a--b
+        }
+        if !(prev.is_ascii_alphanumeric() || prev == b'_' || prev == b'.' || prev >= 0x80) {
+            return true;
+        }
+    }
+    false
+}
+
 // ---------------------------------------------------------------------------
 
 fn main() {
@@ -1311,70 +1520,45 @@ fn main() {
     let n = arg_val(args, "--n", 600) as usize;
     let n_parse = arg_val(args, "--parse", 4000) as usize;
     let mut rng = Rng::new(seed);
+    if let Some(i) = args.iter().position(|a| a == "--debug-file") {
+        // developer aid: parse one file (JSON object {name: text}, root = first key or "root.fea") verbosely
+        let raw = std::fs::read_to_string(&args[i + 1]).unwrap();
+        let files: BTreeMap<String, String> = if raw.trim_start().starts_with('{') { serde_json::from_str(&raw).unwrap() } else { [("root.fea".to_string(), raw)].into_iter().collect() };
+        let root = if files.contains_key("root.fea") { "root.fea".to_string() } else if files.contains_key("f0") { "f0".to_string() } else { files.keys().next().unwrap().clone() };
+        let gm = glyph_map();
+        for use_map in [false, true] {
+            let map: HashMap<String, Arc<str>> = files.iter().map(|(k, v)| (k.clone(), Arc::from(v.as_str()))).collect();
+            let r = std::panic::catch_unwind(|| {
+                let (tree, diags) = parse_root(PathBuf::from(&root), if use_map { Some(&gm) } else { None }, Box::new(move |p: &Path| map.get(p.to_str().unwrap_or("")).cloned().ok_or_else(|| SourceLoadError::new(p.to_path_buf(), "no such file")))).unwrap();
+                println!("== glyph_map={use_map} root_len={} errors={}", tree.root().text_len(), diags.has_errors());
+                for d in diags.diagnostics() {
+                    println!("  {:?} {:?} {}", d.level, d.span(), d.text());
+                }
+                println!("{}", diags.display());
+                if !diags.has_errors() {
+                    let v = fea_rs::compile::validate(&tree, &gm, None::<&fea_rs::compile::NopVariationInfo>);
+                    println!("  validate: {} diagnostics", v.len());
+                }
+            });
+            println!("  result: {}", if r.is_ok() { "ok" } else { "PANIC" });
+        }
+        return;
+    }
+    if args.iter().any(|a| a == "--worker-parse") {
+        let probe = args.iter().position(|a| a == "--probe").map(|i| args[i + 1].parse::<usize>().unwrap());
+        worker_parse(seed, arg_val(args, "--chunk", 0) as usize, arg_val(args, "--nchunks", 1) as usize, n_parse, arg_val(args, "--skip-hang", 0), probe);
+        return;
+    }
     install_hooks();
     let corpus = load_corpus();
     let mut id = 0usize;
     let mut stats: BTreeMap<String, usize> = BTreeMap::new();
 
-    // ---- fixed regression inputs (always run first) -------------------------
-    let fixed: &[&str] = &[
-        "",
-        "\0",
-        "languagesystem DFLT dflt;\0feature liga { sub a by b; } liga;",
-        "feature liga { sub a by b }",
-        "include(a)",
-        "@a = [b]é;",
-        "feature liga { sub a--b by c; } liga;",
-        "feature liga { sub [a---b] by c; } liga;",
-        "feature kern { pos a ${x-12.5}; } kern;",
-        "feature kern { pos a ${x-1.}; } kern;",
-        "feature liga { sub a' from [b c]; sub a b' c' lookup L1 by d; } liga;",
-        "\"unterminated",
-        "0x",
-        "include(",
-        "include()",
-        "anon x { ",
-        "table",
-        "feature liga {",
-        "é",
-        "#",
-        "\\",
-    ];
-
-    // ---- stream P -----------------------------------------------------------
-    let mut pst = PStats { parses: 0, error_free: 0, validated: 0, with_diags: 0, by_kind: BTreeMap::new() };
-    for t in fixed {
-        check_text("fixed", t, &mut rng, &mut pst);
-    }
-    for (_, text) in &corpus {
-        check_text("corpus", text, &mut rng, &mut pst);
-    }
-    for i in 0..n_parse {
-        match i % 4 {
-            0 => {
-                let (_, base) = rng.pick(&corpus);
-                let w = window(&mut rng, base, 1500);
-                let m = mutate(&mut rng, &w, 4);
-                check_text("corpus-mutated", &m, &mut rng, &mut pst);
-            }
-            1 => {
-                let t = gen_fea(&mut rng);
-                check_text("grammar", &t, &mut rng, &mut pst);
-            }
-            2 => {
-                let t = gen_fea(&mut rng);
-                let m = mutate(&mut rng, &t, 3);
-                check_text("grammar-mutated", &m, &mut rng, &mut pst);
-            }
-            _ => {
-                let t = gen_soup(&mut rng);
-                check_text("soup", &t, &mut rng, &mut pst);
-            }
-        }
-    }
+    // ---- stream P: in child processes (a parse that never returns cannot be abandoned in-process)
+    let pst = orchestrate_parse_stream(seed, n_parse);
 
     // ---- stream L -----------------------------------------------------------
-    for t in fixed {
+    for t in FIXED.iter().chain(HANG_PROBES.iter()) {
         lexer_case(&mut id, "lex-fixed", t);
     }
     for i in 0..n {
@@ -1471,11 +1655,8 @@ fn main() {
     }
 
     emit_stat(json!({
-        "extra_evaluations": pst.parses,
-        "parse_checks": pst.parses,
-        "parse_checks_error_free_then_validated": pst.validated,
-        "parse_checks_with_diagnostics": pst.with_diags,
-        "parse_inputs_by_kind": pst.by_kind,
+        "extra_evaluations": pst["totals"]["parses"].as_u64().unwrap_or(0),
+        "parse_stream": pst,
         "corpus_files": corpus.len(),
         "drive_and_include": stats,
     }));
